@@ -55,7 +55,7 @@ PLANS['C07'] = {
     'level_note': TREE_NOTE,
 }
 PLANS['C08'] = {
-    'quick': [tree('F3', 3, 1, 2, '{1}', 'R', 'F', maxfail=9), tree('DF5', 5, 1, 1, '{1}', 'SA', 'DF', maxfail=9), tree('SV2', 2, 1, 4, '{1}', 'Str', 'SV', maxfail=3)],
+    'quick': [tree('F3', 3, 1, 2, '{1}', 'R', 'F', maxfail=9), tree('DF5', 5, 1, 1, '{1}', 'SA', 'DF', maxfail=9), tree('SV2', 2, 1, 4, '{1}', 'Str', 'SV', maxfail=3), tree('AN3', 3, 1, 2, '{1}', 'All', 'AN', maxfail=3)],
     'thorough': [tree('F3', 3, 1, 2, '{1}', 'R', 'F', maxfail=9), tree('DF5', 5, 1, 1, '{1}', 'SA', 'DF', maxfail=9),
                  tree('F3asan', 3, 1, 2, '{1}', 'R', 'F', maxfail=9, flavour='asan')],
     'rule': TREE_RULE, 'assumptions': TREE_ASSUME,
